@@ -54,6 +54,9 @@ type Spec struct {
 	// nothing from more and 16 workers x 16 Ps thrash the scheduler).
 	Procs int
 	Extra func(p *Parent)
+	// WorkerEnv gives extra environment variables for the worker process of a shard
+	// (switches the code under test reads at package initialisation).
+	WorkerEnv func(shard int) []string
 }
 
 // Violation is one refuting observation.
@@ -474,6 +477,9 @@ func parentMain(spec *Spec, tier string, seed int64) int {
 					"VERIF_TIER="+tier, fmt.Sprintf("VERIF_SEED=%d", seed),
 					"GORACE=halt_on_error=0 log_path="+filepath.Join(dir, fmt.Sprintf("race.w%d.%d", sh, attempt)),
 					"GOTRACEBACK=all", fmt.Sprintf("GOMAXPROCS=%d", procs))
+				if spec.WorkerEnv != nil {
+					cmd.Env = append(cmd.Env, spec.WorkerEnv(sh)...)
+				}
 				cmd.Stdout = lf
 				cmd.Stderr = lf
 				if err := cmd.Start(); err != nil {
@@ -866,6 +872,21 @@ func replayMain(spec *Spec, path string) int {
 	}
 	if rf.Shards == 0 {
 		rf.Shards = 1
+	}
+	if spec.WorkerEnv != nil && os.Getenv("VERIF_REPLAY_ENV_SET") == "" {
+		// the shard's worker ran with extra environment: replay in a process that has it
+		if env := spec.WorkerEnv(rf.Shard); len(env) > 0 {
+			cmd := exec.Command(os.Args[0], os.Args[1:]...)
+			cmd.Env = append(append(os.Environ(), env...), "VERIF_REPLAY_ENV_SET=1")
+			cmd.Stdout, cmd.Stderr = os.Stdout, os.Stderr
+			if err := cmd.Run(); err != nil {
+				if ee, ok := err.(*exec.ExitError); ok {
+					return ee.ExitCode()
+				}
+				return 2
+			}
+			return 0
+		}
 	}
 	w := newW(spec, rf.Tier, rf.Seed, rf.Shard, rf.Shards)
 	w.Replay = &rf
